@@ -100,8 +100,13 @@ fn allocate_jit_memory_unix(_src: &FuncPtrInternal, code_size: usize) -> *mut u8
             };
             if ptr != libc::MAP_FAILED {
                 let allocated = ptr as u64;
-                let diff = allocated.abs_diff(original_addr);
-                if diff <= max_range {
+                // A branch reaches [-max_range, +max_range): exactly +max_range cannot be encoded.
+                let in_range = if allocated >= original_addr {
+                    allocated - original_addr < max_range
+                } else {
+                    original_addr - allocated <= max_range
+                };
+                if in_range {
                     return ptr as *mut u8;
                 } else {
                     unsafe { libc::munmap(ptr, code_size) };
@@ -164,8 +169,13 @@ fn allocate_jit_memory_windows(_src: &FuncPtrInternal, code_size: usize) -> *mut
             };
             if !ptr.is_null() {
                 let allocated = ptr as u64;
-                let diff = allocated.abs_diff(original_addr);
-                if diff <= max_range {
+                // A branch reaches [-max_range, +max_range): exactly +max_range cannot be encoded.
+                let in_range = if allocated >= original_addr {
+                    allocated - original_addr < max_range
+                } else {
+                    original_addr - allocated <= max_range
+                };
+                if in_range {
                     return ptr as *mut u8;
                 } else {
                     unsafe {
